@@ -221,6 +221,14 @@ func (b *bmpClient) loop() {
 				case ev := <-w.Event():
 					switch msg := ev.(type) {
 					case *watchEventUpdate:
+						if msg.PostPolicy && msg.Neighbor == nil {
+							// The initial post-policy dump also lists the routes that were
+							// not learned from a neighbour (locally originated). They are
+							// never reported afterwards and there is no peer to attribute
+							// them to: no Peer Up announced the all-zero per-peer header
+							// they would be sent under (RFC 7854 4.10).
+							continue
+						}
 						info := &table.PeerInfo{
 							Address: msg.PeerAddress,
 							AS:      msg.PeerAS,
